@@ -39,7 +39,12 @@ def one_script(ctx, r, depth, big=0):
             step = {"argv": argv, "stdin": None if stdin is None else stdin.decode("utf-8", "replace"), "env": env}
             if appended and r.p(55):
                 # a write(2) cut short: the log holds only the first k bytes of what the command wrote
-                k = r.pick([1, 2, len(twin_bytes) - pre_len - 1, 1 + r.n(len(twin_bytes) - pre_len - 1)] if len(twin_bytes) - pre_len > 2 else [1])
+                own_bytes = twin_bytes[pre_len:]
+                nls = [i for i, b in enumerate(own_bytes) if b == 10]
+                # also right before the end of a line: the fragment then ends in the `}` that closes the payload (it looks finished and is not), or
+                # is a whole line that lacks only its newline
+                near = [p - 1 for p in nls if p - 1 > 0] + [p for p in nls if 0 < p < len(own_bytes) - 1]
+                k = r.pick(([1, 2, len(own_bytes) - 1, 1 + r.n(len(own_bytes) - 1)] + near[-2:] + ([r.pick(near)] if near else [])) if len(own_bytes) > 2 else [1])
                 with open(st.log_path(), "wb") as f:
                     f.write(twin_bytes[:pre_len + k])
                 step["torn_after_bytes"] = k
